@@ -3,9 +3,26 @@
 //! Anything it cannot find is emitted as the string "Unknown:<what>", on which the checker
 //! `FactsCheck.facts_ok` returns false (fail closed).
 //!
+//!
+//! Before the facts are read the registered function is brought into a canonical shape (section
+//! "normalisation" below), so that behaviour-preserving rewrites of the source give the same facts:
+//!   * helper functions of the same file that are called exactly once are spliced into their call site,
+//!     the others are scanned as if they were nested in the registered function;
+//!   * `match` on `Option` / on `()` with guards / on `Mode` and `if let Some(_) = ..` become `if` chains,
+//!     negated conditions (`!c`, `.is_none()`, `!=`) are turned round by swapping the branches;
+//!   * `if C { ..return/panic } REST` becomes `if C { .. } else { REST }`;
+//!   * `let p = if ..; S(p)`, `x = Some(if ..)`, `r.m(if ..)` are distributed over the branches;
+//!   * `TokenStream::new()` is read as `quote!()`;
+//!   * locals are renamed by ROLE (the variable that receives `Some(Mode::_)` is `mode`, the one assigned
+//!     under `is_ident("bound")` is `override_bound`, the parameter of the `each` closure is `bi`).
+//! None of these steps invents a fact: what is not recognised afterwards is still `Unknown`.
+//!
 //! usage: c15-translator <path to derive/src/lib.rs>
 use quote::ToTokens;
+use std::collections::{BTreeMap, BTreeSet};
 use syn::visit::Visit;
+use syn::visit_mut::VisitMut;
+use syn::{Block, Expr, Pat, Stmt};
 
 fn strip(s: &str) -> String { s.chars().filter(|c| !c.is_whitespace()).collect() }
 fn toks<T: ToTokens>(t: &T) -> String { strip(&t.to_token_stream().to_string()) }
@@ -60,6 +77,8 @@ struct Facts {
     filter_flag: String,
     each_closure_macros: Vec<String>,
     seed: Vec<String>,
+    nt_writes: Vec<(String, String)>,       // (variable, tokens appended / "Unknown:..") for every token accumulator
+    mode_values_in_chain: usize,
     drop_if: Vec<(String, Vec<String>, Vec<String>)>,  // cond, then-macros, else-macros
     where_pred_macros: Vec<String>,
     add_bounds_if: Vec<(String, String, String)>,
@@ -93,6 +112,7 @@ impl<'a, 'ast> Visit<'ast> for Walker<'a> {
                     if lhs == "mode" {
                         if let Some(v) = rhs.strip_prefix("Some(Mode::").and_then(|r| r.strip_suffix(")")) {
                             self.f.mode_map.push((ii.meta_level[0].clone(), v.to_string()));
+                            self.f.mode_values_in_chain += 1;
                         } else { self.f.mode_map.push((ii.meta_level[0].clone(), format!("Unknown:{}", rhs))); }
                     }
                 }
@@ -119,11 +139,23 @@ impl<'a, 'ast> Visit<'ast> for Walker<'a> {
     fn visit_expr_method_call(&mut self, m: &'ast syn::ExprMethodCall) {
         if m.method == "filter" && m.args.len() == 1 {
             if let syn::Expr::Closure(c) = &m.args[0] {
-                if let syn::Expr::Match(mm) = &*c.body {
+                // the closure body: `match ..` or `{ match .. }`
+                let cbody: &syn::Expr = match &*c.body {
+                    syn::Expr::Block(b) if b.block.stmts.len() == 1 => match &b.block.stmts[0] {
+                        syn::Stmt::Expr(e, None) => e,
+                        _ => &*c.body,
+                    },
+                    o => o,
+                };
+                if let syn::Expr::Match(mm) = cbody {
                     let mut ii = IsIdent::default(); ii.visit_expr(&c.body);
                     self.f.filter_idents = ii.meta_level.clone();
-                    for arm in &mm.arms {
-                        self.f.filter_arms.push((toks(&arm.pat), norm_tail(&arm.body)));
+                    // arms in the order Ok(Some(..)), Ok(None), Err(..) whatever the source order (the patterns are disjoint)
+                    let rank = |p: &str| if p.starts_with("Ok(Some(") { 0 } else if p == "Ok(None)" { 1 } else if p.starts_with("Err(") { 2 } else { 3 };
+                    let mut arms: Vec<(String, String, bool)> = mm.arms.iter().map(|arm| (toks(&arm.pat), norm_tail(&arm.body), arm.guard.is_some())).collect();
+                    arms.sort_by_key(|a| rank(&a.0));
+                    for (p, t, guarded) in arms {
+                        self.f.filter_arms.push((if guarded { format!("Unknown:guarded:{}", p) } else { p }, t));
                     }
                     // which flag is set to true, and under which is_ident guard
                     struct Flag<'b> { f: &'b mut Facts }
@@ -145,26 +177,1109 @@ impl<'a, 'ast> Visit<'ast> for Walker<'a> {
                         }
                     }
                     Flag { f: self.f }.visit_expr(&c.body);
+                    // the flag must be a fresh `let mut FLAG = false;` of this closure (one per field)
+                    struct FlagDecl<'b> { name: &'b str, found: usize }
+                    impl<'b, 'ast> Visit<'ast> for FlagDecl<'b> {
+                        fn visit_local(&mut self, l: &'ast syn::Local) {
+                            if let syn::Pat::Ident(pi) = &l.pat {
+                                if pi.ident == self.name && pi.mutability.is_some() {
+                                    if let Some(init) = &l.init { if toks(&*init.expr) == "false" { self.found += 1; } }
+                                }
+                            }
+                            syn::visit::visit_local(self, l);
+                        }
+                    }
+                    let flag = self.f.filter_flag.clone();
+                    let mut fd = FlagDecl { name: &flag, found: 0 };
+                    fd.visit_expr(&c.body);
+                    if fd.found != 1 && !flag.is_empty() {
+                        self.f.filter_flag = format!("Unknown:flag-not-declared-in-the-closure:{}", flag);
+                    }
                 }
             }
         }
         if m.method == "each" && m.args.len() == 1 {
             if let syn::Expr::Closure(c) = &m.args[0] {
-                let mut mm = Macros::default(); mm.visit_expr(&c.body);
+                let param = match c.inputs.first() {
+                    Some(syn::Pat::Ident(pi)) if c.inputs.len() == 1 => Some(pi.ident.to_string()),
+                    Some(syn::Pat::Type(pt)) if c.inputs.len() == 1 => match &*pt.pat { syn::Pat::Ident(pi) => Some(pi.ident.to_string()), _ => None },
+                    _ => None,
+                };
+                let body: syn::Expr = match &param {
+                    Some(p) if p != "bi" && count_ident_tokens(c.body.to_token_stream(), "bi") == 0 => {
+                        let mut map = BTreeMap::new(); map.insert(p.clone(), "bi".to_string());
+                        syn::parse2::<syn::Expr>(rename_tokens(c.body.to_token_stream(), &map)).unwrap_or_else(|_| (*c.body).clone())
+                    }
+                    _ => (*c.body).clone(),
+                };
+                let mut mm = Macros::default(); mm.visit_expr(&body);
                 self.f.each_closure_macros = mm.v.iter().map(|x| x.1.clone()).collect();
+                if param.is_none() { self.f.each_closure_macros.push("Unknown:closure-parameter".into()); }
             }
         }
-        if m.method == "to_tokens" {
-            if let syn::Expr::Macro(em) = &*m.receiver {
-                let t = strip(&em.mac.tokens.to_string());
-                if m.args.len() == 1 && toks(&m.args[0]).contains("needs_trace") && !t.contains("NEEDS_TRACE") {
-                    self.f.seed.push(t);
+        if m.method == "to_tokens" && m.args.len() == 1 {
+            if let Some(v) = mut_ref_var(&m.args[0]) {
+                match &*m.receiver {
+                    syn::Expr::Macro(em) if macro_name(&em.mac).starts_with("quote") => self.f.nt_writes.push((v, strip(&quote_body(&em.mac)))),
+                    o => self.f.nt_writes.push((v, format!("Unknown:to_tokens-of:{}", toks(o)))),
+                }
+            }
+        }
+        if (m.method == "extend" || m.method == "append_all") && m.args.len() == 1 {
+            if let Some(v) = single_ident(&m.receiver) {
+                match &m.args[0] {
+                    syn::Expr::Macro(em) if macro_name(&em.mac).starts_with("quote") => self.f.nt_writes.push((v, strip(&quote_body(&em.mac)))),
+                    o => self.f.nt_writes.push((v, format!("Unknown:extend-with:{}", toks(o)))),
                 }
             }
         }
         if m.method == "add_where_predicate" {
             let mut mm = Macros::default(); for a in &m.args { mm.visit_expr(a); }
             self.f.where_pred_macros.extend(mm.v.iter().map(|x| x.1.clone()));
+        }
+        syn::visit::visit_expr_method_call(self, m);
+    }
+}
+
+// =================================================================================================
+// normalisation (see the module comment)
+// =================================================================================================
+
+fn single_ident(e: &Expr) -> Option<String> {
+    if let Expr::Path(p) = e {
+        if p.qself.is_none() && p.path.leading_colon.is_none() && p.path.segments.len() == 1 && p.path.segments[0].arguments.is_none() {
+            return Some(p.path.segments[0].ident.to_string());
+        }
+    }
+    None
+}
+
+/// `x`, `&x`, `&mut x`, `*x`, `(x)`: the variable.
+fn core_ident(e: &Expr) -> Option<String> {
+    match e {
+        Expr::Paren(p) => core_ident(&p.expr),
+        Expr::Group(g) => core_ident(&g.expr),
+        Expr::Reference(r) => core_ident(&r.expr),
+        Expr::Unary(u) if matches!(u.op, syn::UnOp::Deref(_)) => core_ident(&u.expr),
+        o => single_ident(o),
+    }
+}
+
+fn path_segs(e: &Expr) -> Option<Vec<String>> {
+    if let Expr::Path(p) = e {
+        if p.qself.is_none() {
+            return Some(p.path.segments.iter().map(|s| s.ident.to_string()).collect());
+        }
+    }
+    None
+}
+
+fn pat_path_segs(p: &Pat) -> Option<Vec<String>> {
+    match p {
+        Pat::Path(pp) if pp.qself.is_none() => Some(pp.path.segments.iter().map(|s| s.ident.to_string()).collect()),
+        Pat::Ident(i) if i.by_ref.is_none() && i.mutability.is_none() && i.subpat.is_none() => Some(vec![i.ident.to_string()]),
+        Pat::Paren(p) => pat_path_segs(&p.pat),
+        _ => None,
+    }
+}
+
+fn pat_is_wild(p: &Pat) -> bool {
+    match p {
+        Pat::Wild(_) => true,
+        Pat::Paren(p) => pat_is_wild(&p.pat),
+        _ => false,
+    }
+}
+
+/// `Some(_)`: matches `Some` and binds nothing.
+fn pat_some_nobind(p: &Pat) -> bool {
+    match p {
+        Pat::TupleStruct(ts) => ts.qself.is_none() && ts.path.segments.last().map(|s| s.ident == "Some").unwrap_or(false) && ts.elems.len() == 1 && pat_is_wild(&ts.elems[0]),
+        Pat::Paren(p) => pat_some_nobind(&p.pat),
+        _ => false,
+    }
+}
+
+fn pat_none(p: &Pat) -> bool {
+    pat_path_segs(p).map(|s| s.last().map(|x| x == "None").unwrap_or(false)).unwrap_or(false)
+}
+
+/// `Mode::A` / `Mode::A | Mode::B`: the enum-variant paths of a pattern without bindings.
+fn pat_variant_paths(p: &Pat) -> Option<Vec<syn::Path>> {
+    match p {
+        Pat::Path(pp) if pp.qself.is_none() && pp.path.segments.len() >= 2 => Some(vec![pp.path.clone()]),
+        Pat::Or(o) => {
+            let mut v = vec![];
+            for c in &o.cases {
+                v.extend(pat_variant_paths(c)?);
+            }
+            Some(v)
+        }
+        Pat::Paren(p) => pat_variant_paths(&p.pat),
+        _ => None,
+    }
+}
+
+fn expr_to_block(e: Expr) -> Block {
+    match e {
+        Expr::Block(b) if b.label.is_none() && b.attrs.is_empty() => b.block,
+        o => Block { brace_token: Default::default(), stmts: vec![Stmt::Expr(o, None)] },
+    }
+}
+
+fn block_expr(b: Block) -> Expr {
+    Expr::Block(syn::ExprBlock { attrs: vec![], label: None, block: b })
+}
+
+fn mk_if(cond: Expr, then: Block, els: Option<Expr>) -> Expr {
+    Expr::If(syn::ExprIf {
+        attrs: vec![],
+        if_token: Default::default(),
+        cond: Box::new(cond),
+        then_branch: then,
+        else_branch: els.map(|e| (Default::default(), Box::new(e))),
+    })
+}
+
+fn needs_parens_as_receiver(e: &Expr) -> bool {
+    !matches!(e, Expr::Path(_) | Expr::Field(_) | Expr::MethodCall(_) | Expr::Call(_) | Expr::Paren(_) | Expr::Index(_))
+}
+
+fn mk_is_some(x: &Expr) -> Expr {
+    if needs_parens_as_receiver(x) {
+        syn::parse_quote!((#x).is_some())
+    } else {
+        syn::parse_quote!(#x.is_some())
+    }
+}
+
+fn is_macro_named(m: &syn::Macro, names: &[&str]) -> bool {
+    names.iter().any(|n| macro_name(m) == *n)
+}
+
+/// Does control never fall out of the end of this block?  (`return ..;`, `panic!(..)`, `unreachable!(..)`)
+fn diverges(b: &Block) -> bool {
+    match b.stmts.last() {
+        Some(Stmt::Expr(Expr::Return(_), _)) => true,
+        Some(Stmt::Expr(Expr::Macro(m), _)) => is_macro_named(&m.mac, &["panic", "unreachable"]),
+        Some(Stmt::Macro(m)) => is_macro_named(&m.mac, &["panic", "unreachable"]),
+        _ => false,
+    }
+}
+
+/// An `if` chain every arm of which either yields a value (tail expression) or diverges.
+fn is_value_if(e: &Expr) -> bool {
+    match e {
+        Expr::If(i) => {
+            let then_ok = diverges(&i.then_branch) || matches!(i.then_branch.stmts.last(), Some(Stmt::Expr(_, None)));
+            let else_ok = match &i.else_branch {
+                None => false,
+                Some((_, e)) => match &**e {
+                    Expr::If(_) => is_value_if(e),
+                    Expr::Block(b) => diverges(&b.block) || matches!(b.block.stmts.last(), Some(Stmt::Expr(_, None))),
+                    _ => false,
+                },
+            };
+            then_ok && else_ok
+        }
+        _ => false,
+    }
+}
+
+fn count_ident_tokens(ts: proc_macro2::TokenStream, name: &str) -> usize {
+    let mut n = 0;
+    for t in ts {
+        match t {
+            proc_macro2::TokenTree::Ident(i) if i == name => n += 1,
+            proc_macro2::TokenTree::Group(g) => n += count_ident_tokens(g.stream(), name),
+            _ => {}
+        }
+    }
+    n
+}
+
+fn collect_idents(ts: proc_macro2::TokenStream, out: &mut Vec<String>) {
+    for t in ts {
+        match t {
+            proc_macro2::TokenTree::Ident(i) => out.push(i.to_string()),
+            proc_macro2::TokenTree::Group(g) => collect_idents(g.stream(), out),
+            _ => {}
+        }
+    }
+}
+
+/// Does some code assign to, or mutably borrow, one of `vars`?
+struct Writes<'a> {
+    vars: &'a [String],
+    found: bool,
+}
+impl<'a, 'ast> Visit<'ast> for Writes<'a> {
+    fn visit_expr_assign(&mut self, a: &'ast syn::ExprAssign) {
+        if let Some(v) = core_ident(&a.left) {
+            if self.vars.contains(&v) {
+                self.found = true;
+            }
+        }
+        syn::visit::visit_expr_assign(self, a);
+    }
+    fn visit_expr_reference(&mut self, r: &'ast syn::ExprReference) {
+        if r.mutability.is_some() {
+            if let Some(v) = core_ident(&r.expr) {
+                if self.vars.contains(&v) {
+                    self.found = true;
+                }
+            }
+        }
+        syn::visit::visit_expr_reference(self, r);
+    }
+    fn visit_pat_ident(&mut self, p: &'ast syn::PatIdent) {
+        // a re-binding of one of the variables changes what the name means
+        if self.vars.contains(&p.ident.to_string()) {
+            self.found = true;
+        }
+    }
+    fn visit_expr_method_call(&mut self, m: &'ast syn::ExprMethodCall) {
+        // `v.replace(..)`, `v.take()`, `v.insert(..)`, `v.push(..)`: auto-ref'd mutation
+        if let Some(v) = core_ident(&m.receiver) {
+            if self.vars.contains(&v) && ["replace", "take", "insert", "push", "get_or_insert", "get_or_insert_with", "extend", "clear"].iter().any(|n| m.method == n) {
+                self.found = true;
+            }
+        }
+        syn::visit::visit_expr_method_call(self, m);
+    }
+}
+
+struct CountPathUses<'a> {
+    name: &'a str,
+    n: usize,
+}
+impl<'a, 'ast> Visit<'ast> for CountPathUses<'a> {
+    fn visit_expr(&mut self, e: &'ast Expr) {
+        if single_ident(e).as_deref() == Some(self.name) {
+            self.n += 1;
+        }
+        syn::visit::visit_expr(self, e);
+    }
+}
+
+struct SubstIdent<'a> {
+    name: &'a str,
+    with: &'a Expr,
+}
+impl<'a> VisitMut for SubstIdent<'a> {
+    fn visit_expr_mut(&mut self, e: &mut Expr) {
+        if single_ident(e).as_deref() == Some(self.name) {
+            *e = self.with.clone();
+            return;
+        }
+        syn::visit_mut::visit_expr_mut(self, e);
+    }
+}
+
+/// `st` with the variable `name` replaced by `with`; `None` unless `name` occurs exactly once, as an expression.
+fn subst_once(st: &Stmt, name: &str, with: &Expr) -> Option<Stmt> {
+    let toks = count_ident_tokens(st.to_token_stream(), name);
+    let mut c = CountPathUses { name, n: 0 };
+    c.visit_stmt(st);
+    if toks != 1 || c.n != 1 {
+        return None;
+    }
+    let mut out = st.clone();
+    SubstIdent { name, with }.visit_stmt_mut(&mut out);
+    Some(out)
+}
+
+/// Distribute a continuation over the arms of a value-`if`: every arm that yields `v` becomes `..; k(v)`.
+fn distribute(e: &Expr, k: &dyn Fn(Expr) -> Option<Stmt>) -> Option<Expr> {
+    fn arm(b: &Block, k: &dyn Fn(Expr) -> Option<Stmt>) -> Option<Block> {
+        if diverges(b) {
+            return Some(b.clone());
+        }
+        let mut stmts = b.stmts.clone();
+        match stmts.pop() {
+            Some(Stmt::Expr(v, None)) => {
+                stmts.push(k(v)?);
+                Some(Block { brace_token: Default::default(), stmts })
+            }
+            _ => None,
+        }
+    }
+    match e {
+        Expr::If(i) => {
+            let then = arm(&i.then_branch, k)?;
+            let els = match &i.else_branch {
+                None => return None,
+                Some((_, e)) => match &**e {
+                    Expr::If(_) => distribute(e, k)?,
+                    Expr::Block(b) => block_expr(arm(&b.block, k)?),
+                    _ => return None,
+                },
+            };
+            Some(mk_if((*i.cond).clone(), then, Some(els)))
+        }
+        _ => None,
+    }
+}
+
+fn strip_parens(e: &Expr) -> &Expr {
+    match e {
+        Expr::Paren(p) => strip_parens(&p.expr),
+        Expr::Group(g) => strip_parens(&g.expr),
+        o => o,
+    }
+}
+
+struct Norm {
+    changed: bool,
+}
+
+impl Norm {
+    fn rewrite_expr(&mut self, e: &mut Expr) {
+        // TokenStream::new()  ==  quote!()
+        if let Expr::Call(c) = e {
+            if c.args.is_empty() {
+                if let Some(s) = path_segs(&c.func) {
+                    let n = s.len();
+                    if n >= 2 && s[n - 1] == "new" && s[n - 2] == "TokenStream" {
+                        *e = syn::parse_quote!(quote!());
+                        self.changed = true;
+                        return;
+                    }
+                }
+            }
+        }
+        // match .. { .. }  ->  if chain
+        if let Expr::Match(m) = e {
+            if let Some(n) = Self::match_to_if(m) {
+                *e = n;
+                self.changed = true;
+            }
+        }
+        if let Expr::If(i) = e {
+            // if let Some(_) = X / if let None = X
+            if let Expr::Let(l) = &*i.cond {
+                let x = (*l.expr).clone();
+                if pat_some_nobind(&l.pat) {
+                    i.cond = Box::new(mk_is_some(&x));
+                    self.changed = true;
+                } else if pat_none(&l.pat) {
+                    let some = mk_is_some(&x);
+                    i.cond = Box::new(syn::parse_quote!(!#some));
+                    self.changed = true;
+                }
+            }
+            // (c) -> c
+            if let Expr::Paren(p) = &*i.cond {
+                i.cond = p.expr.clone();
+                self.changed = true;
+            }
+            // x.is_none() -> !x.is_some()
+            if let Expr::MethodCall(mc) = &*i.cond {
+                if mc.method == "is_none" && mc.args.is_empty() {
+                    let some = mk_is_some(&mc.receiver);
+                    i.cond = Box::new(syn::parse_quote!(!#some));
+                    self.changed = true;
+                }
+            }
+            // a != b -> !(a == b);   Mode::X == v -> v == Mode::X;   *v == .. / &v == .. -> v == ..
+            if let Expr::Binary(b) = &*i.cond {
+                if let syn::BinOp::Ne(_) = b.op {
+                    let (l, r) = (&b.left, &b.right);
+                    i.cond = Box::new(syn::parse_quote!(!(#l == #r)));
+                    self.changed = true;
+                }
+            }
+            if let Expr::Binary(b) = &mut *i.cond {
+                if let syn::BinOp::Eq(_) = b.op {
+                    let l_var = core_ident(&b.left);
+                    let r_var = core_ident(&b.right);
+                    let l_path = path_segs(strip_parens(&b.left)).map(|s| s.len() >= 2).unwrap_or(false);
+                    if l_path && r_var.is_some() {
+                        std::mem::swap(&mut b.left, &mut b.right);
+                        self.changed = true;
+                    } else if let Some(v) = l_var {
+                        if single_ident(&b.left).is_none() {
+                            let id = syn::Ident::new(&v, proc_macro2::Span::call_site());
+                            b.left = Box::new(syn::parse_quote!(#id));
+                            self.changed = true;
+                        }
+                    }
+                }
+            }
+            // if !c { A } else { B }  ->  if c { B } else { A }
+            let negated: Option<Expr> = match &*i.cond {
+                Expr::Unary(u) if matches!(u.op, syn::UnOp::Not(_)) => Some(match strip_parens(&u.expr) {
+                    o => o.clone(),
+                }),
+                _ => None,
+            };
+            if let (Some(c), Some((_, els))) = (negated, i.else_branch.clone()) {
+                let old_then = std::mem::replace(&mut i.then_branch, expr_to_block(*els));
+                i.else_branch = Some((Default::default(), Box::new(block_expr(old_then))));
+                i.cond = Box::new(c);
+                self.changed = true;
+            }
+        }
+    }
+
+    /// `let c = a == b;` / `let c = x.is_some();` / `let c = m.path.is_ident("..");` (possibly negated)
+    fn pure_condition_let(st: &Stmt) -> Option<(String, Expr)> {
+        fn pure_cond(e: &Expr) -> bool {
+            match e {
+                Expr::Paren(p) => pure_cond(&p.expr),
+                Expr::Unary(u) if matches!(u.op, syn::UnOp::Not(_)) => pure_cond(&u.expr),
+                Expr::Binary(b) if matches!(b.op, syn::BinOp::Eq(_) | syn::BinOp::Ne(_)) => {
+                    let side = |x: &Expr| core_ident(x).is_some() || path_segs(strip_parens(x)).is_some();
+                    side(&b.left) && side(&b.right)
+                }
+                Expr::Binary(b) if matches!(b.op, syn::BinOp::And(_) | syn::BinOp::Or(_)) => pure_cond(&b.left) && pure_cond(&b.right),
+                Expr::MethodCall(m) => {
+                    let recv_ok = match &*m.receiver {
+                        Expr::Path(_) => core_ident(&m.receiver).is_some(),
+                        Expr::Field(f) => core_ident(&f.base).is_some(),
+                        _ => false,
+                    };
+                    let lit_args = m.args.iter().all(|a| matches!(a, Expr::Lit(_)));
+                    recv_ok && lit_args && ["is_some", "is_none", "is_ident", "is_empty"].iter().any(|n| m.method == n)
+                }
+                _ => false,
+            }
+        }
+        if let Stmt::Local(l) = st {
+            let init = l.init.as_ref()?;
+            if init.diverge.is_some() || !l.attrs.is_empty() {
+                return None;
+            }
+            let name = match &l.pat {
+                Pat::Ident(pi) if pi.by_ref.is_none() && pi.subpat.is_none() && pi.mutability.is_none() => pi.ident.to_string(),
+                Pat::Type(pt) => match &*pt.pat {
+                    Pat::Ident(pi) if pi.by_ref.is_none() && pi.subpat.is_none() && pi.mutability.is_none() => pi.ident.to_string(),
+                    _ => return None,
+                },
+                _ => return None,
+            };
+            if pure_cond(&init.expr) {
+                return Some((name, (*init.expr).clone()));
+            }
+        }
+        None
+    }
+
+    fn match_to_if(m: &syn::ExprMatch) -> Option<Expr> {
+        if !m.attrs.is_empty() || m.arms.is_empty() {
+            return None;
+        }
+        let body = |a: &syn::Arm| expr_to_block((*a.body).clone());
+        let n = m.arms.len();
+        // (a) Option scrutinee, no bindings: Some(_) / None / _
+        if m.arms.iter().all(|a| a.guard.is_none() && (pat_some_nobind(&a.pat) || pat_none(&a.pat) || pat_is_wild(&a.pat))) && n == 2 {
+            let some_arm = m.arms.iter().position(|a| pat_some_nobind(&a.pat));
+            let none_arm = m.arms.iter().position(|a| pat_none(&a.pat));
+            let wild_arm = m.arms.iter().position(|a| pat_is_wild(&a.pat));
+            let (s, o) = match (some_arm, none_arm, wild_arm) {
+                (Some(s), Some(o), None) => (s, o),
+                (Some(0), None, Some(1)) => (0, 1),
+                (None, Some(0), Some(1)) => (1, 0),
+                _ => return None,
+            };
+            return Some(mk_if(mk_is_some(&m.expr), body(&m.arms[s]), Some(block_expr(body(&m.arms[o])))));
+        }
+        // (b) `match () { _ if c1 => A, _ if c2 => B, _ => C }`
+        if m.arms.iter().all(|a| pat_is_wild(&a.pat)) && m.arms[..n - 1].iter().all(|a| a.guard.is_some()) && m.arms[n - 1].guard.is_none() && n >= 2 {
+            let side_effect_free = matches!(strip_parens(&m.expr), Expr::Tuple(t) if t.elems.is_empty()) || core_ident(&m.expr).is_some();
+            if !side_effect_free {
+                return None;
+            }
+            let mut acc = block_expr(body(&m.arms[n - 1]));
+            for a in m.arms[..n - 1].iter().rev() {
+                let c = (*a.guard.as_ref().unwrap().1).clone();
+                acc = mk_if(c, body(a), Some(acc));
+            }
+            return Some(acc);
+        }
+        // (c) enum variants without payload: `match v { E::A => X, E::B | E::C => Y, _ => Z }`; the last arm is
+        //     whatever is left (the match is exhaustive)
+        if let Some(v) = core_ident(&m.expr) {
+            let id = syn::Ident::new(&v, proc_macro2::Span::call_site());
+            let ok = n >= 2
+                && m.arms.iter().all(|a| a.guard.is_none())
+                && m.arms[..n - 1].iter().all(|a| pat_variant_paths(&a.pat).is_some())
+                && (pat_is_wild(&m.arms[n - 1].pat) || pat_variant_paths(&m.arms[n - 1].pat).is_some());
+            if ok {
+                let mut acc = block_expr(body(&m.arms[n - 1]));
+                for a in m.arms[..n - 1].iter().rev() {
+                    let ps = pat_variant_paths(&a.pat).unwrap();
+                    let mut cond: Option<Expr> = None;
+                    for p in ps {
+                        let c: Expr = syn::parse_quote!(#id == #p);
+                        cond = Some(match cond {
+                            None => c,
+                            Some(prev) => syn::parse_quote!(#prev || #c),
+                        });
+                    }
+                    acc = mk_if(cond?, body(a), Some(acc));
+                }
+                return Some(acc);
+            }
+        }
+        None
+    }
+
+    fn rewrite_block(&mut self, b: &mut Block) {
+        let mut k = 0;
+        while k < b.stmts.len() {
+            // if C { ..diverges } REST  ->  if C { .. } else { REST }
+            let early = match &b.stmts[k] {
+                Stmt::Expr(Expr::If(i), _) => i.else_branch.is_none() && diverges(&i.then_branch) && k + 1 < b.stmts.len() && !matches!(&*i.cond, Expr::Let(_)),
+                _ => false,
+            };
+            if early {
+                let rest: Vec<Stmt> = b.stmts.drain(k + 1..).collect();
+                if let Stmt::Expr(Expr::If(i), semi) = &mut b.stmts[k] {
+                    i.else_branch = Some((Default::default(), Box::new(block_expr(Block { brace_token: Default::default(), stmts: rest }))));
+                    *semi = None;
+                }
+                self.changed = true;
+                // the moved statements are normalised when the new else block is visited in the next round
+                break;
+            }
+            // let p = IF; NEXT(p)   ->   if .. { NEXT(v1) } else { NEXT(v2) }
+            let mut replaced = false;
+            if k + 1 < b.stmts.len() {
+                if let Stmt::Local(l) = &b.stmts[k] {
+                    let name = match &l.pat {
+                        Pat::Ident(pi) if pi.by_ref.is_none() && pi.subpat.is_none() => Some(pi.ident.to_string()),
+                        Pat::Type(pt) => match &*pt.pat {
+                            Pat::Ident(pi) if pi.by_ref.is_none() && pi.subpat.is_none() => Some(pi.ident.to_string()),
+                            _ => None,
+                        },
+                        _ => None,
+                    };
+                    if let (Some(name), Some(init)) = (name, &l.init) {
+                        let later: usize = b.stmts[k + 2..].iter().map(|s| count_ident_tokens(s.to_token_stream(), &name)).sum();
+                        if init.diverge.is_none() && is_value_if(&init.expr) && later == 0 {
+                            let next = b.stmts[k + 1].clone();
+                            let cont = |v: Expr| -> Option<Stmt> {
+                                let v = if matches!(v, Expr::Path(_) | Expr::Call(_) | Expr::MethodCall(_) | Expr::Macro(_) | Expr::Lit(_)) { v } else { syn::parse_quote!((#v)) };
+                                subst_once(&next, &name, &v).map(|s| match s {
+                                    Stmt::Expr(e, None) => Stmt::Expr(e, Some(Default::default())),
+                                    o => o,
+                                })
+                            };
+                            if let Some(n) = distribute(&init.expr, &cont) {
+                                b.stmts[k] = Stmt::Expr(n, None);
+                                b.stmts.remove(k + 1);
+                                // keep the block's value shape: a trailing `if` without `;` is fine for `()`
+                                if k + 1 < b.stmts.len() {
+                                    if let Stmt::Expr(_, semi) = &mut b.stmts[k] {
+                                        *semi = Some(Default::default());
+                                    }
+                                }
+                                self.changed = true;
+                                replaced = true;
+                            }
+                        }
+                    }
+                }
+            }
+            // let c = <pure condition>; REST   ->   REST[c := condition]   (when REST does not write its variables)
+            if !replaced {
+                if let Some((name, cond)) = Self::pure_condition_let(&b.stmts[k]) {
+                    let vars: Vec<String> = {
+                        let mut v = vec![];
+                        collect_idents(cond.to_token_stream(), &mut v);
+                        v
+                    };
+                    let rest = &b.stmts[k + 1..];
+                    let written = rest.iter().any(|st| {
+                        let mut w = Writes { vars: &vars, found: false };
+                        w.visit_stmt(st);
+                        w.found
+                    });
+                    let toks_n: usize = rest.iter().map(|st| count_ident_tokens(st.to_token_stream(), &name)).sum();
+                    let mut c = CountPathUses { name: &name, n: 0 };
+                    for st in rest {
+                        c.visit_stmt(st);
+                    }
+                    if !written && toks_n == c.n && c.n >= 1 {
+                        let with: Expr = syn::parse_quote!((#cond));
+                        for st in b.stmts[k + 1..].iter_mut() {
+                            SubstIdent { name: &name, with: &with }.visit_stmt_mut(st);
+                        }
+                        b.stmts.remove(k);
+                        self.changed = true;
+                        continue;
+                    }
+                }
+            }
+            // x = IF / x = Some(IF) / r.m(IF)   ->   distributed over the arms
+            if !replaced {
+                if let Stmt::Expr(e, semi) = &b.stmts[k] {
+                    let semi = *semi;
+                    let new: Option<Expr> = match e {
+                        Expr::Assign(a) if a.attrs.is_empty() => {
+                            let lhs = (*a.left).clone();
+                            match &*a.right {
+                                r if is_value_if(r) => distribute(r, &|v| Some(Stmt::Expr(syn::parse_quote!(#lhs = #v), Some(Default::default())))),
+                                Expr::Call(c) if c.args.len() == 1 && is_value_if(&c.args[0]) => {
+                                    let f = (*c.func).clone();
+                                    distribute(&c.args[0], &|v| Some(Stmt::Expr(syn::parse_quote!(#lhs = #f(#v)), Some(Default::default()))))
+                                }
+                                _ => None,
+                            }
+                        }
+                        Expr::MethodCall(mc) if mc.attrs.is_empty() && mc.turbofish.is_none() && mc.args.len() == 1 && is_value_if(&mc.args[0]) => {
+                            let r = (*mc.receiver).clone();
+                            let name = mc.method.clone();
+                            distribute(&mc.args[0], &|v| Some(Stmt::Expr(syn::parse_quote!(#r.#name(#v)), Some(Default::default()))))
+                        }
+                        _ => None,
+                    };
+                    if let Some(n) = new {
+                        b.stmts[k] = Stmt::Expr(n, semi);
+                        self.changed = true;
+                    }
+                }
+            }
+            k += 1;
+        }
+    }
+}
+
+impl VisitMut for Norm {
+    fn visit_expr_mut(&mut self, e: &mut Expr) {
+        syn::visit_mut::visit_expr_mut(self, e);
+        self.rewrite_expr(e);
+    }
+    fn visit_block_mut(&mut self, b: &mut Block) {
+        syn::visit_mut::visit_block_mut(self, b);
+        self.rewrite_block(b);
+    }
+}
+
+fn normalize_block(b: &mut Block) {
+    for _ in 0..40 {
+        let mut n = Norm { changed: false };
+        n.visit_block_mut(b);
+        if !n.changed {
+            break;
+        }
+    }
+}
+
+// ---- identifiers: renaming (also inside macro bodies) -------------------------------------------
+
+fn rename_tokens(ts: proc_macro2::TokenStream, map: &BTreeMap<String, String>) -> proc_macro2::TokenStream {
+    use proc_macro2::{Group, Ident, TokenTree};
+    ts.into_iter()
+        .map(|t| match t {
+            TokenTree::Ident(i) => match map.get(&i.to_string()) {
+                Some(to) => TokenTree::Ident(Ident::new(to, i.span())),
+                None => TokenTree::Ident(i),
+            },
+            TokenTree::Group(g) => {
+                let mut n = Group::new(g.delimiter(), rename_tokens(g.stream(), map));
+                n.set_span(g.span());
+                TokenTree::Group(n)
+            }
+            o => o,
+        })
+        .collect()
+}
+
+/// Rename variables everywhere in a block (token level, so `#x` inside `quote!` follows).
+fn rename_block(b: &Block, map: &BTreeMap<String, String>) -> Option<Block> {
+    if map.is_empty() {
+        return Some(b.clone());
+    }
+    syn::parse2::<Block>(rename_tokens(b.to_token_stream(), map)).ok()
+}
+
+// ---- helper functions: splice the ones called once, nest the others -----------------------------
+
+struct CallCounter<'a> {
+    names: &'a BTreeSet<String>,
+    count: BTreeMap<String, usize>,
+}
+impl<'a, 'ast> Visit<'ast> for CallCounter<'a> {
+    fn visit_expr_call(&mut self, c: &'ast syn::ExprCall) {
+        if let Some(n) = single_ident(&c.func) {
+            if self.names.contains(&n) {
+                *self.count.entry(n).or_insert(0) += 1;
+            }
+        }
+        syn::visit::visit_expr_call(self, c);
+    }
+}
+
+struct Splice<'a> {
+    defs: &'a BTreeMap<String, syn::ItemFn>,
+    once: &'a BTreeSet<String>,
+    failed: Vec<String>,
+}
+impl<'a> VisitMut for Splice<'a> {
+    fn visit_expr_mut(&mut self, e: &mut Expr) {
+        syn::visit_mut::visit_expr_mut(self, e);
+        let (name, args) = match e {
+            Expr::Call(c) => match single_ident(&c.func) {
+                Some(n) if self.once.contains(&n) => (n, c.args.iter().cloned().collect::<Vec<Expr>>()),
+                _ => return,
+            },
+            _ => return,
+        };
+        let def = &self.defs[&name];
+        let mut map = BTreeMap::new();
+        let mut lets: Vec<Stmt> = vec![];
+        if def.sig.inputs.len() != args.len() {
+            self.failed.push(name);
+            return;
+        }
+        for (p, a) in def.sig.inputs.iter().zip(args.iter()) {
+            let pn = match p {
+                syn::FnArg::Typed(pt) => match &*pt.pat {
+                    Pat::Ident(pi) => pi.ident.clone(),
+                    _ => {
+                        self.failed.push(name);
+                        return;
+                    }
+                },
+                _ => {
+                    self.failed.push(name);
+                    return;
+                }
+            };
+            match core_ident(a) {
+                // the argument is a variable (possibly borrowed): the parameter IS that variable
+                Some(v) => {
+                    map.insert(pn.to_string(), v);
+                }
+                None => lets.push(syn::parse_quote!(let #pn = #a;)),
+            }
+        }
+        match rename_block(&def.block, &map) {
+            Some(mut body) => {
+                let mut stmts = lets;
+                stmts.append(&mut body.stmts);
+                *e = block_expr(Block { brace_token: Default::default(), stmts });
+            }
+            None => self.failed.push(name),
+        }
+    }
+}
+
+/// The registered function's body with the file's helper functions brought in: those called exactly once are
+/// spliced into the call site (parameters that receive a plain variable are renamed to it), the others are
+/// appended as nested items so that every scan sees them.  Helper bodies are normalised first.
+fn assemble(file: &syn::File, entry: &syn::ItemFn) -> (Block, Vec<String>) {
+    let mut notes = vec![];
+    let mut defs: BTreeMap<String, syn::ItemFn> = BTreeMap::new();
+    for it in &file.items {
+        if let syn::Item::Fn(f) = it {
+            let is_entry_point = f.attrs.iter().any(|a| {
+                let p = a.path();
+                p.is_ident("proc_macro") || p.is_ident("proc_macro_derive") || p.is_ident("proc_macro_attribute")
+            });
+            if f.sig.ident != entry.sig.ident && !is_entry_point {
+                defs.insert(f.sig.ident.to_string(), f.clone());
+            }
+        }
+    }
+    let mut body = (*entry.block).clone();
+    // nested `fn` items of the entry that are called once are candidates as well
+    let mut nested: BTreeMap<String, syn::ItemFn> = BTreeMap::new();
+    for st in &body.stmts {
+        if let Stmt::Item(syn::Item::Fn(f)) = st {
+            nested.insert(f.sig.ident.to_string(), f.clone());
+        }
+    }
+    for (k, v) in &nested {
+        defs.insert(k.clone(), v.clone());
+    }
+    for d in defs.values_mut() {
+        normalize_block(&mut d.block);
+    }
+    normalize_block(&mut body);
+    for _round in 0..4 {
+        let names: BTreeSet<String> = defs.keys().cloned().collect();
+        let mut cc = CallCounter { names: &names, count: BTreeMap::new() };
+        cc.visit_block(&body);
+        // a helper is spliced when the whole reachable code calls it exactly once (calls from other helpers count)
+        let mut total = cc.count.clone();
+        for (n, d) in &defs {
+            if nested.contains_key(n) {
+                continue; // already counted: nested items are part of `body`
+            }
+            let mut c2 = CallCounter { names: &names, count: BTreeMap::new() };
+            c2.visit_block(&d.block);
+            for (k, v) in c2.count {
+                *total.entry(k).or_insert(0) += v;
+            }
+        }
+        let once: BTreeSet<String> = cc
+            .count
+            .iter()
+            .filter(|(n, c)| **c == 1 && total.get(*n).copied().unwrap_or(0) == 1)
+            .filter(|(n, _)| {
+                let d = &defs[*n];
+                d.sig.asyncness.is_none() && d.sig.unsafety.is_none() && d.sig.generics.params.is_empty()
+            })
+            .map(|(n, _)| n.clone())
+            .collect();
+        if once.is_empty() {
+            break;
+        }
+        let mut sp = Splice { defs: &defs, once: &once, failed: vec![] };
+        sp.visit_block_mut(&mut body);
+        for f in &sp.failed {
+            notes.push(format!("helper `{}` could not be spliced", f));
+        }
+        let failed: BTreeSet<String> = sp.failed.iter().cloned().collect();
+        // drop the spliced definitions (nested items included)
+        body.stmts.retain(|st| match st {
+            Stmt::Item(syn::Item::Fn(f)) => !(once.contains(&f.sig.ident.to_string()) && !failed.contains(&f.sig.ident.to_string())),
+            _ => true,
+        });
+        for n in &once {
+            if !failed.contains(n) {
+                defs.remove(n);
+                nested.remove(n);
+            }
+        }
+        normalize_block(&mut body);
+        if !failed.is_empty() {
+            break;
+        }
+    }
+    // the remaining module-level helpers that the code mentions: nest them
+    let mut mentioned: Vec<String> = vec![];
+    let mut frontier = body.to_token_stream();
+    for _ in 0..6 {
+        let mut added = false;
+        for (n, d) in &defs {
+            if nested.contains_key(n) || mentioned.contains(n) {
+                continue;
+            }
+            if count_ident_tokens(frontier.clone(), n) > 0 {
+                mentioned.push(n.clone());
+                frontier.extend(d.block.to_token_stream());
+                added = true;
+            }
+        }
+        if !added {
+            break;
+        }
+    }
+    for n in &mentioned {
+        body.stmts.insert(0, Stmt::Item(syn::Item::Fn(defs[n].clone())));
+    }
+    (body, notes)
+}
+
+// ---- roles --------------------------------------------------------------------------------------
+
+/// `Some(Mode::X)` -> X
+fn some_mode(e: &Expr) -> Option<String> {
+    if let Expr::Call(c) = e {
+        if single_ident(&c.func).as_deref() == Some("Some") && c.args.len() == 1 {
+            if let Some(s) = path_segs(&c.args[0]) {
+                if s.len() == 2 && s[0] == "Mode" {
+                    return Some(s[1].clone());
+                }
+            }
+        }
+    }
+    None
+}
+
+#[derive(Default)]
+struct Roles {
+    mode_assigned: BTreeSet<String>,        // v in `v = Some(Mode::X)`
+    mode_compared: BTreeSet<String>,        // v in `v == Mode::X`
+    links: Vec<(String, String)>,           // (a, b) in `let Some(a) = b else ..` / `let a = b.unwrap()`
+    bound_assigned: BTreeSet<String>,       // v in `v = Some(..)` under `if ..is_ident("bound")`
+    in_bound: usize,
+}
+impl<'ast> Visit<'ast> for Roles {
+    fn visit_expr_assign(&mut self, a: &'ast syn::ExprAssign) {
+        if let Some(v) = single_ident(&a.left) {
+            if some_mode(&a.right).is_some() {
+                self.mode_assigned.insert(v.clone());
+            }
+            if self.in_bound > 0 {
+                if let Expr::Call(c) = &*a.right {
+                    if single_ident(&c.func).as_deref() == Some("Some") {
+                        self.bound_assigned.insert(v);
+                    }
+                }
+            }
+        }
+        syn::visit::visit_expr_assign(self, a);
+    }
+    fn visit_expr_binary(&mut self, b: &'ast syn::ExprBinary) {
+        if matches!(b.op, syn::BinOp::Eq(_) | syn::BinOp::Ne(_)) {
+            for (x, y) in [(&b.left, &b.right), (&b.right, &b.left)] {
+                if let (Some(v), Some(s)) = (core_ident(x), path_segs(strip_parens(y))) {
+                    if s.len() == 2 && s[0] == "Mode" {
+                        self.mode_compared.insert(v);
+                    }
+                }
+            }
+        }
+        syn::visit::visit_expr_binary(self, b);
+    }
+    fn visit_local(&mut self, l: &'ast syn::Local) {
+        if let Some(init) = &l.init {
+            // let Some(a) = b else { .. }
+            if let Pat::TupleStruct(ts) = &l.pat {
+                if ts.path.is_ident("Some") && ts.elems.len() == 1 && init.diverge.is_some() {
+                    if let (Pat::Ident(pi), Some(b)) = (&ts.elems[0], core_ident(&init.expr)) {
+                        self.links.push((pi.ident.to_string(), b));
+                    }
+                }
+            }
+            // let a = b.unwrap() / b.expect(..) / b.unwrap_or_else(|| panic..)
+            if let Pat::Ident(pi) = &l.pat {
+                if let Expr::MethodCall(mc) = &*init.expr {
+                    if ["unwrap", "expect", "unwrap_or_else"].iter().any(|m| mc.method == m) {
+                        if let Some(b) = core_ident(&mc.receiver) {
+                            self.links.push((pi.ident.to_string(), b));
+                        }
+                    }
+                }
+            }
+        }
+        syn::visit::visit_local(self, l);
+    }
+    fn visit_expr_if(&mut self, i: &'ast syn::ExprIf) {
+        let mut ii = IsIdent::default();
+        ii.visit_expr(&i.cond);
+        let is_bound = ii.meta_level.len() == 1 && ii.meta_level[0] == "bound";
+        self.visit_expr(&i.cond);
+        if is_bound {
+            self.in_bound += 1;
+        }
+        self.visit_block(&i.then_branch);
+        if is_bound {
+            self.in_bound -= 1;
+        }
+        if let Some((_, e)) = &i.else_branch {
+            self.visit_expr(e);
+        }
+    }
+}
+
+/// Rename locals by role.  A variable compared with `Mode::_` that is not the one fed by the attribute parser
+/// gets a name no check accepts.
+fn canonical_names(b: &Block) -> BTreeMap<String, String> {
+    let mut r = Roles::default();
+    r.visit_block(b);
+    let mut map = BTreeMap::new();
+    let mut class: BTreeSet<String> = r.mode_assigned.clone();
+    if class.len() == 1 {
+        loop {
+            let mut grew = false;
+            for (a, bb) in &r.links {
+                if class.contains(bb) && class.insert(a.clone()) {
+                    grew = true;
+                }
+            }
+            if !grew {
+                break;
+            }
+        }
+        for v in &class {
+            if v != "mode" {
+                map.insert(v.clone(), "mode".to_string());
+            }
+        }
+    }
+    for v in &r.mode_compared {
+        if !class.contains(v) {
+            map.insert(v.clone(), format!("Unknown_not_the_parsed_mode_{}", v));
+        }
+    }
+    if r.bound_assigned.len() == 1 {
+        let v = r.bound_assigned.iter().next().unwrap();
+        if v != "override_bound" && !map.contains_key(v) {
+            map.insert(v.clone(), "override_bound".to_string());
+        }
+    }
+    // a rename must not collide with a name that is already in use for something else
+    let all_idents = b.to_token_stream();
+    let targets: Vec<String> = map.values().cloned().collect();
+    for t in targets {
+        if t.starts_with("Unknown_") {
+            continue;
+        }
+        let already = count_ident_tokens(all_idents.clone(), &t) > 0;
+        let is_source_too = map.contains_key(&t);
+        if already && !is_source_too && !class.contains(&t) && !(t == "override_bound" && r.bound_assigned.contains(&t)) {
+            map.retain(|_, v| *v != t);
+        }
+    }
+    map
+}
+
+/// `&mut v` -> v
+fn mut_ref_var(e: &Expr) -> Option<String> {
+    match e {
+        Expr::Reference(r) if r.mutability.is_some() => single_ident(&r.expr),
+        Expr::Paren(p) => mut_ref_var(&p.expr),
+        _ => None,
+    }
+}
+
+/// Tokens a `quote!(..)` / `quote_spanned!(span=> ..)` invocation produces (the part after `=>`).
+fn quote_body(m: &syn::Macro) -> String {
+    let t = m.tokens.to_string();
+    if macro_name(m) == "quote_spanned" {
+        match t.split_once("=>") {
+            Some((_, b)) => b.to_string(),
+            None => format!("Unknown:quote_spanned:{}", t),
+        }
+    } else {
+        t
+    }
+}
+
+/// Everything that can put tokens into the accumulator `var`, in source order: its initialiser, the
+/// `to_tokens(&mut var)` / `var.extend(..)` calls; plus an `Unknown` entry for any other way of writing it.
+struct Accum<'a> { var: &'a str, parts: Vec<String>, decls: usize }
+impl<'a, 'ast> Visit<'ast> for Accum<'a> {
+    fn visit_local(&mut self, l: &'ast syn::Local) {
+        let name = match &l.pat {
+            Pat::Ident(pi) => Some(pi.ident.to_string()),
+            Pat::Type(pt) => match &*pt.pat { Pat::Ident(pi) => Some(pi.ident.to_string()), _ => None },
+            _ => None,
+        };
+        if name.as_deref() == Some(self.var) {
+            self.decls += 1;
+            match &l.init {
+                Some(init) => match &*init.expr {
+                    Expr::Macro(em) if macro_name(&em.mac).starts_with("quote") => self.parts.push(strip(&quote_body(&em.mac))),
+                    o => self.parts.push(format!("Unknown:initialiser:{}", toks(o))),
+                },
+                None => self.parts.push("Unknown:no-initialiser".into()),
+            }
+        }
+        syn::visit::visit_local(self, l);
+    }
+    fn visit_expr_assign(&mut self, a: &'ast syn::ExprAssign) {
+        if single_ident(&a.left).as_deref() == Some(self.var) {
+            self.parts.push(format!("Unknown:assigned:{}", toks(&*a.right)));
+        }
+        syn::visit::visit_expr_assign(self, a);
+    }
+    fn visit_expr_reference(&mut self, r: &'ast syn::ExprReference) {
+        // `&mut var` anywhere but as the argument of to_tokens is an unknown writer (counted below by difference)
+        if r.mutability.is_some() && single_ident(&r.expr).as_deref() == Some(self.var) {
+            self.parts.push("&mut".into());
+        }
+        syn::visit::visit_expr_reference(self, r);
+    }
+    fn visit_expr_method_call(&mut self, m: &'ast syn::ExprMethodCall) {
+        if single_ident(&m.receiver).as_deref() == Some(self.var) && !(m.method == "extend" || m.method == "append_all" || m.method == "clone" || m.method == "to_string" || m.method == "is_empty") {
+            self.parts.push(format!("Unknown:method:{}", m.method));
         }
         syn::visit::visit_expr_method_call(self, m);
     }
@@ -199,11 +1314,51 @@ fn main() {
     let mut facts = Facts::default();
     let mut all_ident = IsIdent::default();
     let mut all_macros = Macros::default();
+    let mut body: Option<Block> = None;
+    let mut notes: Vec<String> = vec![];
     if let Some(f) = func {
-        Walker { f: &mut facts }.visit_block(&f.block);
-        all_ident.visit_block(&f.block);
-        all_macros.visit_block(&f.block);
+        let (b, n) = assemble(&file, f);
+        notes = n;
+        let names = canonical_names(&b);
+        let b = match rename_block(&b, &names) {
+            Some(x) => x,
+            None => { notes.push("canonical renaming failed to re-parse".into()); b }
+        };
+        if std::env::var("C15_TRANSLATOR_DUMP").is_ok() {
+            eprintln!("{}", b.to_token_stream());
+        }
+        Walker { f: &mut facts }.visit_block(&b);
+        all_ident.visit_block(&b);
+        all_macros.visit_block(&b);
+        body = Some(b);
     }
+    // every `Mode::X` used as a VALUE must be one of the three assignments of the attribute chain
+    struct ModeValues { values: usize }
+    impl<'ast> Visit<'ast> for ModeValues {
+        fn visit_expr_binary(&mut self, b: &'ast syn::ExprBinary) {
+            if matches!(b.op, syn::BinOp::Eq(_) | syn::BinOp::Ne(_)) {
+                // operands of a comparison are not values that flow anywhere
+                for x in [&b.left, &b.right] {
+                    let is_mode = path_segs(strip_parens(x)).map(|s| s.len() == 2 && s[0] == "Mode").unwrap_or(false);
+                    if !is_mode { self.visit_expr(x); }
+                }
+                return;
+            }
+            syn::visit::visit_expr_binary(self, b);
+        }
+        fn visit_expr_path(&mut self, p: &'ast syn::ExprPath) {
+            let s: Vec<String> = p.path.segments.iter().map(|s| s.ident.to_string()).collect();
+            if s.len() == 2 && s[0] == "Mode" { self.values += 1; }
+        }
+    }
+    if let Some(b) = &body {
+        let mut mv = ModeValues { values: 0 };
+        mv.visit_block(b);
+        if mv.values != facts.mode_values_in_chain {
+            facts.mode_map.push(("Unknown:mode-value-outside-the-attribute-chain".into(), format!("{}", mv.values as i64 - facts.mode_values_in_chain as i64)));
+        }
+    }
+    for n in &notes { facts.mode_map.push((format!("Unknown:{}", n), String::new())); }
     let unknown = |what: &str| format!("Unknown:{}", what);
     let mut out = String::new();
     out.push_str("(* GENERATED by /verif/translator-derive from derive/src/lib.rs -- do not edit *)\n");
@@ -227,6 +1382,29 @@ fn main() {
     def(&mut out, "gen_filter_flag_set_under", "list string", clist(&facts.filter_flag_set_under.iter().map(|s| cstr(s)).collect::<Vec<_>>()));
     def(&mut out, "gen_filter_arms", "list (string * string)", clist(&facts.filter_arms.iter().map(|(a, b)| format!("({}, {})", cstr(a), cstr(b))).collect::<Vec<_>>()));
     // NEEDS_TRACE
+    // the accumulator of the NEEDS_TRACE expression: the variable interpolated into `const NEEDS_TRACE: bool = #V;`.
+    // Its seed is everything put into it that is not the per-field step.
+    let nt_vars: BTreeSet<String> = all_macros.v.iter().filter(|(_, t)| t.contains("constNEEDS_TRACE:bool=#")).map(|(_, t)| {
+        let r = t.split("constNEEDS_TRACE:bool=#").nth(1).unwrap_or("");
+        r.chars().take_while(|c| c.is_alphanumeric() || *c == '_').collect::<String>()
+    }).collect();
+    if let (Some(b), true) = (&body, nt_vars.len() == 1) {
+        let v = nt_vars.iter().next().unwrap().clone();
+        let mut acc = Accum { var: &v, parts: vec![], decls: 0 };
+        acc.visit_block(b);
+        let writes: Vec<&(String, String)> = facts.nt_writes.iter().filter(|(w, _)| *w == v).collect();
+        let to_tokens_refs = acc.parts.iter().filter(|p| *p == "&mut").count();
+        let mut parts: Vec<String> = acc.parts.iter().filter(|p| *p != "&mut").cloned().collect();
+        parts.extend(writes.iter().map(|(_, t)| t.clone()));
+        // `&mut V` must only occur as the argument of the recognised `to_tokens` calls
+        let recognised_refs = facts.nt_writes.iter().filter(|(w, t)| *w == v && !t.starts_with("Unknown:extend")).count();
+        let extend_writes = writes.iter().filter(|(_, _)| true).count();
+        let _ = extend_writes;
+        if to_tokens_refs > recognised_refs { parts.push("Unknown:&mut-accumulator-passed-elsewhere".into()); }
+        if acc.decls != 1 { parts.push(format!("Unknown:{}-declarations-of-the-accumulator", acc.decls)); }
+        let seeds: Vec<String> = parts.into_iter().filter(|t| !t.is_empty() && !t.contains("NEEDS_TRACE")).collect();
+        facts.seed = seeds;
+    }
     let seed = if facts.seed.len() == 1 { facts.seed[0].clone() } else { unknown("seed") };
     def(&mut out, "gen_needs_trace_seed", "string", cstr(&seed));
     let steps: Vec<&(String, String)> = all_macros.v.iter().filter(|(n, t)| n.starts_with("quote") && t.contains("NEEDS_TRACE") && !t.contains("constNEEDS_TRACE")).collect();
@@ -237,6 +1415,83 @@ fn main() {
         let op: String = body.chars().take_while(|c| !c.is_alphanumeric() && *c != '<' && *c != '#').collect();
         (op.clone(), body[op.len()..].to_string())
     } else { (unknown("step"), unknown("step")) };
+    // the step must run for EVERY binding: no `if` / `match` / `continue` / `break` / `return` / `?` in a loop (or
+    // iterator-adaptor closure) around it
+    struct StepGuard { guarded: Vec<String> }
+    fn has_step(ts: proc_macro2::TokenStream) -> bool {
+        let t = strip(&ts.to_string());
+        t.contains("NEEDS_TRACE") && !t.contains("constNEEDS_TRACE")
+    }
+    struct Ctl { found: Vec<String> }
+    impl<'ast> Visit<'ast> for Ctl {
+        fn visit_expr(&mut self, e: &'ast Expr) {
+            match e {
+                Expr::If(_) => self.found.push("if".into()),
+                Expr::Match(_) => self.found.push("match".into()),
+                Expr::Continue(_) => self.found.push("continue".into()),
+                Expr::Break(_) => self.found.push("break".into()),
+                Expr::Return(_) => self.found.push("return".into()),
+                Expr::Try(_) => self.found.push("?".into()),
+                _ => {}
+            }
+            syn::visit::visit_expr(self, e);
+        }
+    }
+    impl<'ast> Visit<'ast> for StepGuard {
+        fn visit_expr_for_loop(&mut self, f: &'ast syn::ExprForLoop) {
+            if has_step(f.body.to_token_stream()) {
+                let mut c = Ctl { found: vec![] };
+                c.visit_block(&f.body);
+                self.guarded.extend(c.found);
+                self.guarded.extend(chain_cuts(&f.expr));
+            }
+            syn::visit::visit_expr_for_loop(self, f);
+        }
+        fn visit_expr_while(&mut self, w: &'ast syn::ExprWhile) {
+            if has_step(w.body.to_token_stream()) { self.guarded.push("while".into()); }
+            syn::visit::visit_expr_while(self, w);
+        }
+        fn visit_expr_loop(&mut self, l: &'ast syn::ExprLoop) {
+            if has_step(l.body.to_token_stream()) { self.guarded.push("loop".into()); }
+            syn::visit::visit_expr_loop(self, l);
+        }
+        fn visit_expr_closure(&mut self, c: &'ast syn::ExprClosure) {
+            if has_step(c.body.to_token_stream()) {
+                let mut k = Ctl { found: vec![] };
+                k.visit_expr(&c.body);
+                self.guarded.extend(k.found);
+            }
+            syn::visit::visit_expr_closure(self, c);
+        }
+        fn visit_expr_method_call(&mut self, m: &'ast syn::ExprMethodCall) {
+            // `CHAIN.for_each(|b| step)`: adaptors in CHAIN that drop or cut elements
+            if m.args.iter().any(|a| has_step(a.to_token_stream())) {
+                self.guarded.extend(chain_cuts(&m.receiver));
+            }
+            syn::visit::visit_expr_method_call(self, m);
+        }
+    }
+    fn chain_cuts(e: &Expr) -> Vec<String> {
+        const CUTS: &[&str] = &["filter", "filter_map", "take", "skip", "take_while", "skip_while", "step_by", "find", "nth", "last", "next", "rev_take", "map_while", "scan"];
+        match e {
+            Expr::MethodCall(m) => {
+                let mut v = chain_cuts(&m.receiver);
+                if CUTS.iter().any(|n| m.method == n) { v.push(format!(".{}()", m.method)); }
+                v
+            }
+            Expr::Paren(p) => chain_cuts(&p.expr),
+            Expr::Reference(r) => chain_cuts(&r.expr),
+            _ => vec![],
+        }
+    }
+    let mut op = op;
+    if let Some(b) = &body {
+        let mut sg = StepGuard { guarded: vec![] };
+        sg.visit_block(b);
+        if !sg.guarded.is_empty() {
+            op = format!("Unknown:step-under-control-flow:{}", sg.guarded.join(","));
+        }
+    }
     def(&mut out, "gen_needs_trace_op", "string", cstr(&op));
     def(&mut out, "gen_needs_trace_atom", "string", cstr(&atom));
     let consts: Vec<String> = all_macros.v.iter().filter(|(_, t)| t.contains("constNEEDS_TRACE:bool=")).map(|(_, t)| {
@@ -259,8 +1514,8 @@ fn main() {
     def(&mut out, "gen_where_pred_macros", "list string", clist(&facts.where_pred_macros.iter().map(|s| cstr(s)).collect::<Vec<_>>()));
     def(&mut out, "gen_add_bounds_ifs", "list (string * string * string)", clist(&facts.add_bounds_if.iter().map(|(c, t, e)| format!("({}, {}, {})", cstr(c), cstr(t), cstr(e))).collect::<Vec<_>>()));
     let mut calls: Vec<String> = vec![];
-    if let Some(f) = func {
-        let t = toks(&f.block);
+    if let Some(b) = &body {
+        let t = toks(b);
         for part in t.split("add_bounds(AddBounds::").skip(1) {
             calls.push(part.chars().take_while(|c| c.is_alphanumeric()).collect());
         }
